@@ -67,7 +67,7 @@ JudgeReader(r) ==
       final ==
         IF r.fault = 1 THEN {}
         ELSE IF p.st = "ok" /\ s.expect_complete = 1 THEN
-             (IF r.ret # 0 THEN {"H4-well-formed-header-not-accepted"} ELSE
+             (IF r.ret # 0 THEN (IF "lenient" \in DOMAIN p /\ p.lenient THEN {} ELSE {"H4-well-formed-header-not-accepted"}) ELSE
                 (IF r.pos # p.end THEN {"H4-position-after-header-wrong"} ELSE {})
                 \cup (IF r.kind = 0 THEN
                          (IF r.text # (IF p.fields.text THEN 1 ELSE 0) \/ <<r.time_lo, r.time_hi>> # p.fields.time \/ r.xflags # p.fields.xflags \/ r.os # p.fields.os
